@@ -18,7 +18,16 @@ What a reader of a `part` cache gets: the half-built type (`Array[Any,n,n]`, `Ha
 members).  (Before fix 8774e1c the Tuple of an Array's detailed type was published with NIL element types and a reader
 crashed printing it; `Obs.fault` is kept for that answer, which the model can no longer produce.)
 Only flat containers of scalars are modelled (the harness generates no others): a nested container would add the
-caches of its elements.  The test `cache == nil` and the publication are one step (two goroutines that both see nil
+caches of its elements.  An Array may additionally hold `slow` elements — values of a harness-defined kind whose own
+`PType()` is a yield point ("elem.ptype") — so that a fill can be preempted INSIDE its fold over the elements
+(`CPC.fillRed _ k` / `CPC.fillDet k`: k slow elements still to be asked); the cache stays `part` throughout.
+COMPLETION WRITES.  Between the publication and the return a fill function completes the published object through the
+pointer it published.  `CacheWrite` is one row of the second regenerated table (`Generated.cacheWrites`): such a write with
+its shape — `once` (one assignment of the final value), `perIndex` (slot i of a slice, in the loop over i), `repeated`
+(anything else: a location assigned more than once, or in a loop — an in-place fold).  With `once`/`perIndex` writes a
+reader of a `part` cache sees the placeholder or a final component: a type that is imprecise but still a type of the
+value (`Obs.half`).  With a `repeated` write it can see an intermediate value — e.g. an element type that covers only the
+elements folded so far: NOT a type of the value (`Obs.narrow`).  The test `cache == nil` and the publication are one step (two goroutines that both see nil
 both fill; with publication last that is harmless, with publication first it only adds more `partial` windows).
 Core Lean only.
 -/
@@ -48,6 +57,25 @@ def publishOKExcept (known : List String) (tbl : List CacheSite) : Bool :=
 def publishOffender (known : List String) (tbl : List CacheSite) : Option CacheSite :=
   (tbl.filter fun s => !known.contains s.fn).find? fun s => !s.publishLast
 
+inductive WriteShape where
+  | once | perIndex | repeated
+  deriving DecidableEq, Repr
+
+/-- a write through the published pointer, between the publication and the return of a fill function -/
+structure CacheWrite where
+  fn : String
+  target : String
+  shape : WriteShape
+  deriving DecidableEq, Repr
+
+/-- the discipline for completion writes: every location of a published object is written at most once, with its final
+    value (no in-place fold) -/
+def completionOK (tbl : List CacheWrite) : Bool := tbl.all (·.shape != .repeated)
+
+def completionOffender (tbl : List CacheWrite) : Option CacheWrite := tbl.find? (·.shape == .repeated)
+
+def fnFoldsInPlace (tbl : List CacheWrite) (fn : String) : Bool := tbl.any fun w => w.fn == fn && w.shape == .repeated
+
 /-- every recognised publication of this function comes last (and the function was recognised at all) -/
 def fnPublishesLast (tbl : List CacheSite) (fn : String) : Bool :=
   tbl.any (·.fn == fn) && (tbl.filter (·.fn == fn)).all (·.publishLast)
@@ -58,11 +86,22 @@ structure Cfg where
   arrDet : Bool
   hshRed : Bool
   hshDet : Bool
+  -- true = the function completes the published object by an in-place fold (`repeated` completion writes)
+  arrRedFold : Bool := false
+  arrDetFold : Bool := false
+  hshRedFold : Bool := false
+  hshDetFold : Bool := false
   deriving DecidableEq, Repr
 
 def Cfg.ofTable (tbl : List CacheSite) : Cfg :=
   { arrRed := !fnPublishesLast tbl "Array.privateReducedType", arrDet := !fnPublishesLast tbl "Array.privateDetailedType",
     hshRed := !fnPublishesLast tbl "Hash.privateReducedType", hshDet := !fnPublishesLast tbl "Hash.privateDetailedType" }
+
+/-- the model configured from both regenerated tables -/
+def Cfg.ofTables (sites : List CacheSite) (writes : List CacheWrite) : Cfg :=
+  { Cfg.ofTable sites with
+    arrRedFold := fnFoldsInPlace writes "Array.privateReducedType", arrDetFold := fnFoldsInPlace writes "Array.privateDetailedType",
+    hshRedFold := fnFoldsInPlace writes "Hash.privateReducedType", hshDetFold := fnFoldsInPlace writes "Hash.privateDetailedType" }
 
 inductive Kind where
   | arr | hshStr | hshMixed
@@ -76,6 +115,14 @@ def Cfg.detFirst (cfg : Cfg) : Kind → Bool
   | .arr => cfg.arrDet
   | _ => cfg.hshDet
 
+def Cfg.redFold (cfg : Cfg) : Kind → Bool
+  | .arr => cfg.arrRedFold
+  | _ => cfg.hshRedFold
+
+def Cfg.detFold (cfg : Cfg) : Kind → Bool
+  | .arr => cfg.arrDetFold
+  | _ => cfg.hshDetFold
+
 inductive CS where
   | empty | part | done | aliasRed
   deriving DecidableEq, Repr
@@ -85,10 +132,12 @@ structure Shared where
   size : Nat
   red : CS
   det : CS
+  slow : Nat := 0                -- how many of the elements are slow (their own PType() is a yield point)
   deriving DecidableEq, Repr
 
 inductive Obs where
   | full | half | fault
+  | narrow                        -- a type that is not a type of the value (an intermediate value of an in-place fold)
   deriving DecidableEq, Repr
 
 inductive COp where
@@ -98,8 +147,8 @@ inductive COp where
 
 inductive CPC where
   | idle
-  | fillRed (thenDet : Bool)     -- parked at "….reduced.published"
-  | fillDet                      -- parked at "….detailed.published"
+  | fillRed (thenDet : Bool) (k : Nat)   -- parked at "….reduced.published" (k = slow elements still to be asked), then at "elem.ptype"
+  | fillDet (k : Nat)                    -- parked at "….detailed.published", then at "elem.ptype"
   deriving DecidableEq, Repr
 
 structure Thread where
@@ -119,35 +168,43 @@ def seeRed : CS → Obs
   | .part => .half
   | _ => .full
 
+/-- what a reader of the reduced-type cache gets -/
+def seeRedC (cfg : Cfg) (k : Kind) : CS → Obs
+  | .part => if cfg.redFold k then .narrow else .half
+  | _ => .full
+
+/-- … of a half-built detailed type -/
+def seeDetPart (cfg : Cfg) (k : Kind) : Obs := if cfg.detFold k then .narrow else .half
+
 /-- `privateReducedType` up to its return or its publication point (`none` = parked there) -/
 def reduced (cfg : Cfg) (s : Shared) : Shared × Option Obs :=
   match s.red with
   | .empty =>
     if s.size = 0 then ({ s with red := .done }, some .full)
     else ({ s with red := if cfg.redFirst s.kind then .part else .done }, none)
-  | r => (s, some (seeRed r))
+  | r => (s, some (seeRedC cfg s.kind r))
 
 def startOp (cfg : Cfg) (s : Shared) (log : List Obs) (rest : List COp) : COp → Shared × Thread
   | .ptype =>
     match reduced cfg s with
-    | (s', none) => (s', { pc := .fillRed false, ops := rest, log := log })
+    | (s', none) => (s', { pc := .fillRed false s.slow, ops := rest, log := log })
     | (s', some o) => (s', { pc := .idle, ops := rest, log := log ++ [o] })
   | .str =>                       -- ToString asks PType() for the format; the text does not depend on the answer
     match reduced cfg s with
-    | (s', none) => (s', { pc := .fillRed false, ops := rest, log := log })
+    | (s', none) => (s', { pc := .fillRed false s.slow, ops := rest, log := log })
     | (s', some _) => (s', { pc := .idle, ops := rest, log := log ++ [.full] })
   | .pure => (s, { pc := .idle, ops := rest, log := log ++ [.full] })
   | .dtype =>
     match s.det with
     | .done => (s, { pc := .idle, ops := rest, log := log ++ [.full] })
-    | .part => (s, { pc := .idle, ops := rest, log := log ++ [.half] })
-    | .aliasRed => (s, { pc := .idle, ops := rest, log := log ++ [seeRed s.red] })
+    | .part => (s, { pc := .idle, ops := rest, log := log ++ [seeDetPart cfg s.kind] })
+    | .aliasRed => (s, { pc := .idle, ops := rest, log := log ++ [seeRedC cfg s.kind s.red] })
     | .empty =>
       if s.size = 0 ∨ s.kind = .hshMixed then      -- detailedType = privateReducedType()
         match reduced cfg s with
-        | (s', none) => (s', { pc := .fillRed true, ops := rest, log := log })
+        | (s', none) => (s', { pc := .fillRed true s.slow, ops := rest, log := log })
         | (s', some o) => ({ s' with det := .aliasRed }, { pc := .idle, ops := rest, log := log ++ [o] })
-      else ({ s with det := if cfg.detFirst s.kind then .part else .done }, { pc := .fillDet, ops := rest, log := log })
+      else ({ s with det := if cfg.detFirst s.kind then .part else .done }, { pc := .fillDet s.slow, ops := rest, log := log })
 
 def stepThread (cfg : Cfg) (s : Shared) (t : Thread) : Shared × Thread :=
   match t.pc with
@@ -155,9 +212,11 @@ def stepThread (cfg : Cfg) (s : Shared) (t : Thread) : Shared × Thread :=
     match t.ops with
     | [] => (s, t)
     | op :: rest => startOp cfg s t.log rest op
-  | .fillRed thenDet =>
+  | .fillRed thenDet (k + 1) => (s, { pc := .fillRed thenDet k, ops := t.ops, log := t.log })      -- the next slow element is asked
+  | .fillRed thenDet 0 =>
     ({ s with red := .done, det := if thenDet then .aliasRed else s.det }, { pc := .idle, ops := t.ops, log := t.log ++ [.full] })
-  | .fillDet => ({ s with det := .done }, { pc := .idle, ops := t.ops, log := t.log ++ [.full] })
+  | .fillDet (k + 1) => (s, { pc := .fillDet k, ops := t.ops, log := t.log })
+  | .fillDet 0 => ({ s with det := .done }, { pc := .idle, ops := t.ops, log := t.log ++ [.full] })
 
 def stepAt (cfg : Cfg) (c : Config) (i : Nat) : Config :=
   match c.th[i]? with
@@ -168,8 +227,8 @@ inductive Reachable (cfg : Cfg) (c0 : Config) : Config → Prop where
   | init : Reachable cfg c0 c0
   | step {c : Config} (i : Nat) : Reachable cfg c0 c → Reachable cfg c0 (stepAt cfg c i)
 
-def Config.init (kind : Kind) (size : Nat) (progs : List (List COp)) : Config :=
-  { sh := { kind := kind, size := size, red := .empty, det := .empty },
+def Config.init (kind : Kind) (size : Nat) (progs : List (List COp)) (slow : Nat := 0) : Config :=
+  { sh := { kind := kind, size := size, red := .empty, det := .empty, slow := slow },
     th := progs.map fun p => { pc := .idle, ops := p, log := [] } }
 
 def Thread.finished (t : Thread) : Bool := t.pc = .idle && t.ops.isEmpty
@@ -188,8 +247,8 @@ def drainThread (cfg : Cfg) : Nat → Config → Nat → Config
   | 0, c, _ => c
   | fuel + 1, c, i => drainThread cfg fuel (release cfg c i) i
 
-def execute (cfg : Cfg) (kind : Kind) (size : Nat) (progs : List (List COp)) (sched : List Nat) : Config :=
-  let c := runSched cfg (Config.init kind size progs) sched
-  (List.range c.th.length).foldl (fun c i => drainThread cfg (2 * (c.th.getD i default).ops.length + 2) c i) c
+def execute (cfg : Cfg) (kind : Kind) (size : Nat) (progs : List (List COp)) (sched : List Nat) (slow : Nat := 0) : Config :=
+  let c := runSched cfg (Config.init kind size progs slow) sched
+  (List.range c.th.length).foldl (fun c i => drainThread cfg ((2 + slow) * ((c.th.getD i default).ops.length + 1) + 2) c i) c
 
 end Pcore.LazyCache
